@@ -33,6 +33,10 @@ pub enum TOp {
   Unsubscribe(usize),
   RunTask,
   Advance,
+  // used by the thread part of C06 only
+  SubscribeNesting,
+  Retain,
+  Size,
 }
 
 #[derive(Clone, Debug, Hash)]
@@ -86,7 +90,7 @@ pub struct TOutcome {
 pub fn execute(case: &TCase) -> TOutcome {
   crate::vtime::reset(crate::vtime::Mode::Fifo);
   let w = World::new();
-  let shared = if case.pipe % 9 == 6 { Some(w.hot[0].clone().share_threads()) } else { None };
+  let shared = if case.pipe % PIPES.len() == 6 { Some(w.hot[0].clone().share_threads()) } else { None };
   let mk = {
     let w = w.clone();
     let shared = shared.clone();
@@ -131,6 +135,15 @@ pub fn execute(case: &TCase) -> TOutcome {
             TOp::Subscribe => {
               rec.probe = Some(w.subscribe(mk()));
             }
+            TOp::SubscribeNesting => {
+              rec.what = "Subscribe".into();
+              rec.probe = Some(w.subscribe_nesting(mk()));
+            }
+            TOp::Retain => w.hot[0].clone().retain(),
+            TOp::Size => {
+              let _ = w.hot[0].is_empty();
+              let _ = w.hot[0].len();
+            }
             TOp::Unsubscribe(k) => rec.probe = w.unsubscribe(k),
             TOp::RunTask => {
               w.queue.run_one();
@@ -168,7 +181,7 @@ fn common_order(log: &[(usize, Mark)], a: usize, b: usize) -> Option<String> {
 }
 
 pub fn judge(case: &TCase, o: &TOutcome) -> Verdict {
-  let name = PIPES[case.pipe % 9];
+  let name = PIPES[case.pipe % PIPES.len()];
   match &o.stats.verdict {
     TV::Deadlock(m) => return Verdict::Violation { sig: format!("deadlock:{name}"), detail: m.clone() },
     TV::LostWakeup(m) => return Verdict::Violation { sig: format!("lost-wakeup:{name}"), detail: m.clone() },
@@ -179,7 +192,7 @@ pub fn judge(case: &TCase, o: &TOutcome) -> Verdict {
   if let Some(m) = overlapping(&o.log) {
     return Verdict::Violation { sig: format!("overlap:{name}"), detail: m };
   }
-  if (case.pipe % 9 == 0 || case.pipe % 9 == 6) && case.pre_subs >= 2 {
+  if (case.pipe % PIPES.len() == 0 || case.pipe % PIPES.len() == 6) && case.pre_subs >= 2 {
     if let Some(m) = common_order(&o.log, 0, 1) {
       return Verdict::Violation { sig: format!("order:{name}"), detail: m };
     }
@@ -189,7 +202,7 @@ pub fn judge(case: &TCase, o: &TOutcome) -> Verdict {
 
 pub fn case_json(case: &TCase, o: Option<&TOutcome>) -> serde_json::Value {
   let mut j = json!({
-    "pipeline": PIPES[case.pipe % 9], "probes_subscribed_up_front": case.pre_subs,
+    "pipeline": PIPES[case.pipe % PIPES.len()], "probes_subscribed_up_front": case.pre_subs,
     "threads": case.scripts.iter().map(|s| s.iter().map(|o| format!("{o:?}")).collect::<Vec<_>>()).collect::<Vec<_>>(),
     "preemptions(step->thread)": case.preemptions,
   });
@@ -204,7 +217,7 @@ pub fn case_json(case: &TCase, o: Option<&TOutcome>) -> serde_json::Value {
 fn finish(case: TCase, ctx: &Ctx) -> Outcome {
   let o = execute(&case);
   let verdict = judge(&case, &o);
-  let mut labels: Vec<&'static str> = vec![PIPES[case.pipe % 9]];
+  let mut labels: Vec<&'static str> = vec![PIPES[case.pipe % PIPES.len()]];
   if o.stats.preempted_inside_call > 0 {
     labels.push("preempted-inside-call");
   }
@@ -273,5 +286,5 @@ fn run_exh(c: &mut dyn Choices, ctx: &Ctx) -> Outcome {
   } else {
     None
   };
-  Outcome { verdict: Verdict::Ok, nontrivial: inside > 0, hash: hash_of(&base), labels: vec!["exhaustive-2", PIPES[pipe % 9]], notes: vec![format!("schedules-per-case~{}", (schedules / 100) * 100)], desc }
+  Outcome { verdict: Verdict::Ok, nontrivial: inside > 0, hash: hash_of(&base), labels: vec!["exhaustive-2", PIPES[pipe % PIPES.len()]], notes: vec![format!("schedules-per-case~{}", (schedules / 100) * 100)], desc }
 }
